@@ -100,3 +100,19 @@ func IsComparable(tt types.Type) bool {
 	}
 	return false
 }
+
+// ChanElemString returns the type string of a channel's element type, in parentheses where
+// "chan " + str would be read as something else: chan <-chan int is a chan<- (chan int).
+func ChanElemString(elem types.Type, str string) string {
+	if c, ok := elem.(*types.Chan); ok && c.Dir() == types.RecvOnly {
+		return "(" + str + ")"
+	}
+	return str
+}
+
+// IsSendOnlyChan reports whether typ is a channel that cannot be received from.
+func IsSendOnlyChan(typ types.Type) bool {
+	c, ok := typ.(*types.Chan)
+	return ok && c.Dir() == types.SendOnly
+}
+
